@@ -248,6 +248,10 @@ def Header.ofPara (p : Para) : Except Err Header :=
       source := p.get kSource
       upstreamContact := p.get kUpstreamContact }
 
+/-- `deserialize_copyrights` (lossy.rs:163-169): the empty field is the empty list (not the list
+    holding one empty line, which `str::split` returns), otherwise `text.split('\n')` -/
+def deserializeCopyrights (text : Str) : List Str := if text = [] then [] else splitOn '\n' text
+
 /-- derived `FilesParagraph::from_paragraph`: Files, License, Copyright (required, in this
     order), Comment (optional) -/
 def FilesParagraph.ofPara (p : Para) : Except Err FilesParagraph :=
@@ -262,7 +266,7 @@ def FilesParagraph.ofPara (p : Para) : Except Err FilesParagraph :=
       | .ok c => .ok {
           files := deserializeFileList f
           license := License.ofValue l
-          copyright := splitOn '\n' c
+          copyright := deserializeCopyrights c
           comment := p.get kComment }
 
 /-- derived `LicenseParagraph::from_paragraph` -/
@@ -442,6 +446,16 @@ def Lossless.answer (c : Doc) (path : Str) : Answer where
 def Lossy.answer (c : Lossy.Copyright) (path : Str) : Answer where
   idx := (Lossy.findFiles c path).map fun o => o.bind fun fp => lastIdxWhere (· == fp) c.files
   lic := Lossy.findLicenseForFile c path
+
+/-- `FilesParagraph::copyright()` of the paragraph `find_files` returns (lossless.rs:317-324:
+    `get("Copyright").unwrap_or_default().split('\n')` — one empty holder for an empty field) -/
+def Lossless.foundCopyright (c : Doc) (path : Str) : Outcome (Option (List Str)) :=
+  (Lossless.findFiles c path).map fun o => o.map fun fp => splitOn '\n' ((fp.get kCopyright).getD [])
+
+/-- the `copyright` list stored in the lossy paragraph `find_files` returns
+    (`deserialize_copyrights`: no holder for an empty field) -/
+def Lossy.foundCopyright (c : Lossy.Copyright) (path : Str) : Outcome (Option (List Str)) :=
+  (Lossy.findFiles c path).map fun o => o.map (·.copyright)
 
 def Spec.answer (c : Doc) (path : Str) : Answer where
   idx := .ok (lastIdxWhere (Spec.paraMatchesB · path) (Spec.filesParas c))
